@@ -440,8 +440,11 @@ class Sim:
                     ch.append(("lose", k))
             if not self.gw.present and b.get("back", 1) > 0:
                 ch.append(("back",))
-            if (self.gw.present and self.drv._f is None and self.drv._reconnect_task is None):
-                ch.append(("connect",))       # application calls connect() again (after 'failed')
+            if (self.drv._f is None and self.drv._reconnect_task is None
+                    and (self.gw.present or b.get("connect_absent", 0) > 0)):
+                # application calls connect() again (after 'failed') - also while the device is STILL absent
+                # (budget connect_absent): the attempts start over and must end in 'failed' once more
+                ch.append(("connect",))
         if b.get("cancel", 0) > 0:
             ch += [("cancel", c.tid) for c in self.callers if c.started and not c.done]
         return ch
@@ -501,6 +504,8 @@ class Sim:
             self.gw.present = True
             self.gw.wfail = False
         elif k == "connect":
+            if not self.gw.present:
+                b["connect_absent"] = b.get("connect_absent", 0) - 1
             self.loop.call_soon(self.drv.connect)
         elif k == "cancel":
             b["cancel"] -= 1
